@@ -13,6 +13,8 @@
 //	deliver k       deliver transmission k (handshake packets only) to the node owning its destination
 //	dto k m         deliver transmission k to node m instead (misdelivery / replay elsewhere)
 //	dl j / dlto j m the same, counting back from the latest transmission (j = 0)
+//	dlm j r c       like dl j, with the packet's (unauthenticated) header re-framed: reserved bytes := r, counter := c (0 = keep)
+//	(reset … rt<n>=g:w,g:w  gives node n an unsafe route 172.16.0.0/16 with these gateways; addr ids >= 200 are inside it)
 //	send n a port len   one inside UDP packet (IPv4/IPv6 by a) to overlay addr a, dst port, total length
 //	idx n v         the next index node n draws from crypto/rand is v
 //	del n li        connection manager deleteTunnel on local index li
@@ -40,6 +42,8 @@ import (
 	"github.com/slackhq/nebula/config"
 	"github.com/slackhq/nebula/header"
 	"github.com/slackhq/nebula/overlay/overlaytest"
+	"github.com/slackhq/nebula/overlay/tio"
+	"github.com/slackhq/nebula/routing"
 	"github.com/slackhq/nebula/udp"
 	"go.yaml.in/yaml/v3"
 	"verifharness/hlib"
@@ -78,6 +82,21 @@ func (c *recConn) ReloadConfig(*config.C)        {}
 func (c *recConn) SupportsMultipleReaders() bool { return false }
 func (c *recConn) Close() error                  { return nil }
 
+// routedTun is a tun device without packets that knows one unsafe route (172.16.0.0/16) with its gateways.
+type routedTun struct {
+	overlaytest.NoopTun
+	gws routing.Gateways
+}
+
+func (t *routedTun) RoutesFor(a netip.Addr) routing.Gateways {
+	if a.Is4() && a.As4()[0] == 172 && a.As4()[1] == 16 {
+		return t.gws
+	}
+	return routing.Gateways{}
+}
+
+func (t *routedTun) Queues(int) ([]tio.Queue, error) { return []tio.Queue{t}, nil }
+
 type world struct {
 	nodes   []*nebula.VerifHsmNode
 	log     []txRec        // deliverable transmissions (handshake packets)
@@ -113,6 +132,10 @@ func nodeOf(ap netip.AddrPort) int {
 }
 
 func overlayAddr(id int) netip.Addr {
+	if id >= 200 {
+		// an address behind the unsafe route 172.16.0.0/16
+		return netip.AddrFrom4([4]byte{172, 16, 0, byte(id - 200)})
+	}
 	if id < 100 {
 		return netip.AddrFrom4([4]byte{10, 128, 0, byte(id)})
 	}
@@ -264,7 +287,31 @@ func newWorld(t *testing.T, args []string) (w *world, res string) {
 	}
 	l := slog.New(slog.DiscardHandler)
 	w.log0 = l
-	for i, spec := range args[3:] {
+	var specs []string
+	routes := map[int]routing.Gateways{}
+	for _, tok := range args[3:] {
+		if strings.HasPrefix(tok, "rt") {
+			// rt<node>=<gateway addr>:<weight>,…  an unsafe route 172.16.0.0/16 of that node
+			kv := strings.SplitN(tok[2:], "=", 2)
+			if len(kv) != 2 {
+				return w, "bad-op"
+			}
+			var gws routing.Gateways
+			for _, g := range strings.Split(kv[1], ",") {
+				aw := strings.SplitN(g, ":", 2)
+				if len(aw) != 2 {
+					return w, "bad-op"
+				}
+				gws = append(gws, routing.NewGateway(overlayAddr(hlib.Atoi(aw[0])), hlib.Atoi(aw[1])))
+			}
+			routing.CalculateBucketsForGateways(gws)
+			routes[hlib.Atoi(kv[0])] = gws
+			continue
+		}
+		specs = append(specs, tok)
+	}
+	allUnsafe := []netip.Prefix{netip.MustParsePrefix("172.16.0.0/16")}
+	for i, spec := range specs {
 		parts := strings.SplitN(spec, ":", 2)
 		if len(parts) != 2 {
 			return w, "bad-op"
@@ -278,22 +325,29 @@ func newWorld(t *testing.T, args []string) (w *world, res string) {
 			sort.Ints(ids)
 		}
 		var nets []netip.Prefix
+		has4 := false
 		for _, id := range ids {
 			nets = append(nets, overlayPrefix(id))
+			has4 = has4 || id < 100
+		}
+		// every certificate with an IPv4 address is also good for the routed network (a possible gateway)
+		unsafeNet := allUnsafe
+		if !has4 || (parts[0] == "1" && ids[0] >= 100) {
+			unsafeNet = nil
 		}
 		var certPEM, keyPEM []byte
 		name := fmt.Sprintf("node%d", i)
 		switch parts[0] {
 		case "1":
-			_, _, keyPEM, certPEM = cert_test.NewTestCert(cert.Version1, cert.Curve_CURVE25519, ca, caKey, name, before, after, nets[:1], nil, nil)
+			_, _, keyPEM, certPEM = cert_test.NewTestCert(cert.Version1, cert.Curve_CURVE25519, ca, caKey, name, before, after, nets[:1], unsafeNet, nil)
 		case "2":
-			_, _, keyPEM, certPEM = cert_test.NewTestCert(cert.Version2, cert.Curve_CURVE25519, ca, caKey, name, before, after, nets, nil, nil)
+			_, _, keyPEM, certPEM = cert_test.NewTestCert(cert.Version2, cert.Curve_CURVE25519, ca, caKey, name, before, after, nets, unsafeNet, nil)
 		case "3":
 			// v1 certificate for the first (smallest) address, v2 certificate with the same key for all of them
 			var c1 cert.Certificate
 			var p1 []byte
-			c1, _, keyPEM, p1 = cert_test.NewTestCert(cert.Version1, cert.Curve_CURVE25519, ca, caKey, name, before, after, nets[:1], nil, nil)
-			t2 := &cert.TBSCertificate{Version: cert.Version2, Curve: c1.Curve(), Name: c1.Name(), Networks: nets,
+			c1, _, keyPEM, p1 = cert_test.NewTestCert(cert.Version1, cert.Curve_CURVE25519, ca, caKey, name, before, after, nets[:1], unsafeNet, nil)
+			t2 := &cert.TBSCertificate{Version: cert.Version2, Curve: c1.Curve(), Name: c1.Name(), Networks: nets, UnsafeNetworks: unsafeNet,
 				NotBefore: c1.NotBefore(), NotAfter: c1.NotAfter(), PublicKey: c1.PublicKey()}
 			c2, err := t2.Sign(ca, ca.Curve(), caKey)
 			if err != nil {
@@ -337,7 +391,7 @@ func newWorld(t *testing.T, args []string) (w *world, res string) {
 		}
 		w.idxQ = append(w.idxQ, nil)
 		w.idxCtr = append(w.idxCtr, 0)
-		node, err := nebula.VerifHsmNewNode(l, c, &recConn{w: w, node: i}, &overlaytest.NoopTun{})
+		node, err := nebula.VerifHsmNewNode(l, c, &recConn{w: w, node: i}, &routedTun{gws: routes[i]})
 		if err != nil {
 			return w, "err:node " + err.Error()
 		}
@@ -467,9 +521,9 @@ func newExec(t *testing.T) func([]string) string {
 			w.nodes[n].LighthouseTrigger(overlayAddr(hlib.Atoi(a[2])))
 			w.nodes[n].Trigger()
 			return w.finish(n, "ok")
-		case "deliver", "dto", "dl", "dlto":
+		case "deliver", "dto", "dl", "dlto", "dlm":
 			k := hlib.Atoi(a[1])
-			if a[0] == "dl" || a[0] == "dlto" {
+			if a[0] == "dl" || a[0] == "dlto" || a[0] == "dlm" {
 				k = len(w.log) - 1 - k
 			}
 			if k < 0 || k >= len(w.log) {
@@ -485,6 +539,13 @@ func newExec(t *testing.T) func([]string) string {
 			}
 			w.cur = to
 			pkt := append([]byte(nil), r.b...)
+			if a[0] == "dlm" && len(pkt) >= header.Len {
+				// the nebula header of a handshake packet is not authenticated: re-frame it
+				binary.BigEndian.PutUint16(pkt[2:], uint16(hlib.Atoi(a[2]))) // reserved bytes
+				if c := hlib.Atou(a[3]); c != 0 {
+					binary.BigEndian.PutUint64(pkt[8:], c) // message counter
+				}
+			}
 			w.nodes[to].Incoming(underlay(r.src), pkt)
 			return w.finish(to, fmt.Sprintf("to%d", to))
 		case "send":
